@@ -319,6 +319,20 @@ theorem tokSumOK_tok9 : TokSumOK w0 9 := by
 
 /-! ### 2. the pair invariant -/
 
+/-- nobody has granted any cw20 allowance in `w0` -/
+theorem noAllow_w0 (t : Nat) (T : Token) (hT : w0.tok t = some T) (o s : Nat) : T.allow o s = none := by
+  have h : (if t = 8 then some tok8 else if t = 9 then some tok9
+      else if t = 12 then some lp12 else if t = 14 then some lp14 else none) = some T := hT
+  split at h
+  · injection h with h; subst h; rfl
+  · split at h
+    · injection h with h; subst h; rfl
+    · split at h
+      · injection h with h; subst h; rfl
+      · split at h
+        · injection h with h; subst h; rfl
+        · cases h
+
 theorem pairInv_11 : PairInv w0 11 (.native 0) (.token 8) 12 where
   pair := ⟨pair11, rfl, rfl, rfl, rfl⟩
   distinct := by decide
@@ -332,6 +346,7 @@ theorem pairInv_11 : PairInv w0 11 (.native 0) (.token 8) 12 where
   lpNoPair := rfl
   lpNotRouter := by decide
   pNotRouter := by decide
+  noAllow := fun t T hT s => ⟨noAllow_w0 t T hT _ s, noAllow_w0 t T hT _ s⟩
 
 theorem pairInv_13 : PairInv w0 13 (.token 8) (.native 1) 14 where
   pair := ⟨pair13, rfl, rfl, rfl, rfl⟩
@@ -346,6 +361,7 @@ theorem pairInv_13 : PairInv w0 13 (.token 8) (.native 1) 14 where
   lpNoPair := rfl
   lpNotRouter := by decide
   pNotRouter := by decide
+  noAllow := fun t T hT s => ⟨noAllow_w0 t T hT _ s, noAllow_w0 t T hT _ s⟩
 
 /-! ### 6. actors and fresh addresses -/
 
@@ -404,7 +420,9 @@ theorem create_establishes_inv : ∃ w', PairInv w' 15 (.token 9) (.native 0) 16
     (x := exec name0 w0 (.factory 0 [] (.createPair (.token 9) (.native 0) noReq none none 15 16))) (by decide +kernel)
   have hv : ValidOp w0 (.factory 0 [] (.createPair (.token 9) (.native 0) noReq none none 15 16)) :=
     { actor := isActor_0, fresh := freshOK_create, coins := by decide }
-  have hn : NewAddrs w0 15 16 := { ne := by decide, pairFree := rfl, npNotRouter := by decide, nlNotRouter := by decide }
+  have hn : NewAddrs w0 15 16 :=
+    { ne := by decide, pairFree := rfl, npNotRouter := by decide, nlNotRouter := by decide
+      noAllow := fun t T hT s => ⟨noAllow_w0 t T hT _ s, noAllow_w0 t T hT _ s⟩ }
   exact ⟨w', Halo.Props.C03G.created_pair_inv hv hn h⟩
 
 /-! ### 3. a direct swap on pair 11 -/
@@ -558,6 +576,65 @@ theorem hist_nondecr :
 /-- the history really changes the pair: both steps succeed (reserves and supply after it) -/
 theorem hist_view : viewOf (run name0 w0 hist) 11 (.native 0) (.token 8) 12 = (1000293, 1996595, 1413213) := by
   decide +kernel
+
+/-! ### 4b. a history in which third parties spend allowances (`TransferFrom` / `SendFrom` / `BurnFrom` /
+`DecreaseAllowance` are operations of the universe: the history theorems quantify over them) -/
+
+namespace Spend
+
+/-- user 1 lets user 2 spend its token 8; user 2 swaps 5000 of them on pair 11 (and keeps the proceeds), moves 1000 to
+user 3 and burns 500; user 2 lets user 3 spend its LP tokens, and user 3 withdraws 1000 of them (and is paid the
+refunds); finally user 1 revokes what is left of the allowance -/
+def ops : List Op :=
+  [.tokIncAllow 8 1 2 10000,
+   .tokSendFrom 8 2 1 11 5000 (.swap (.token 8) 5000 none none none),
+   .tokTransferFrom 8 2 1 3 1000,
+   .tokBurnFrom 8 2 1 500,
+   .tokIncAllow 12 2 3 1000,
+   .tokSendFrom 12 3 2 11 1000 .withdraw,
+   .tokDecAllow 8 1 2 10000]
+
+/-- an operation other than a factory message is trivially fresh -/
+theorem freshOK_of (w : World) (op : Op) (h : ∀ s f m, op ≠ .factory s f m) : FreshOK w op := by
+  intro s f a0 a1 req c ld np nl e
+  exact absurd e (h _ _ _)
+
+theorem validRun_ops : ValidRun name0 w0 ops := by
+  refine ⟨⟨?_, freshOK_of _ _ (by intro _ _ _ e; cases e), by decide⟩,
+    ⟨?_, freshOK_of _ _ (by intro _ _ _ e; cases e), by decide⟩,
+    ⟨?_, freshOK_of _ _ (by intro _ _ _ e; cases e), by decide⟩,
+    ⟨?_, freshOK_of _ _ (by intro _ _ _ e; cases e), by decide⟩,
+    ⟨?_, freshOK_of _ _ (by intro _ _ _ e; cases e), by decide⟩,
+    ⟨?_, freshOK_of _ _ (by intro _ _ _ e; cases e), by decide⟩,
+    ⟨?_, freshOK_of _ _ (by intro _ _ _ e; cases e), by decide⟩, trivial⟩ <;>
+  (unfold IsActor; decide +kernel)
+
+theorem noWindow_ops : NoWindowRun name0 11 w0 ops := by
+  refine ⟨?_, ?_, ?_, ?_, ?_, ?_, ?_, trivial⟩ <;> (unfold WindowedOn; decide +kernel)
+
+/-- `C03W.history_nondecr` applies: the invariant (including "the pair and the LP address have granted no allowance")
+holds at the end and the share value has not decreased -/
+theorem ops_nondecr :
+    PairInv (run name0 w0 ops) 11 (.native 0) (.token 8) 12 ∧
+    NonDecr (viewOf w0 11 (.native 0) (.token 8) 12) (viewOf (run name0 w0 ops) 11 (.native 0) (.token 8) 12) :=
+  Halo.Props.C03W.history_nondecr ops w0 pairInv_11 validRun_ops noWindow_ops
+
+/-- every step of the history succeeds: the owner's tokens are spent (5000 + 1000 + 500), the SPENDERS are paid
+(user 2 the swap's return, user 3 the refunds); the revoked allowance entry is gone at the end, the used-up one remains
+with 0 -/
+theorem ops_effect :
+    bal (run name0 w0 ops) (.token 8) 1 = 5000000 - 6500 ∧
+    bal (run name0 w0 ops) (.token 8) 3 = 1000000 + 1000 + 1417 ∧
+    bal (run name0 w0 ops) (.native 0) 3 = 10000000 + 705 ∧
+    bal (run name0 w0 ops) (.native 0) 2 = 10000000 + 2486 ∧
+    bal (run name0 w0 ops) (.token 12) 2 = 1000000 - 1000 ∧
+    supply (run name0 w0 ops) 8 = 12000000 - 500 ∧
+    supply (run name0 w0 ops) 12 = 1414213 - 1000 ∧
+    Halo.C07.allowOf (run name0 w0 ops) 8 1 2 = none ∧
+    Halo.C07.allowOf (run name0 w0 ops) 12 2 3 = some 0 := by
+  decide +kernel
+
+end Spend
 
 /-! ### 5. a two-hop route through both pairs -/
 
